@@ -64,6 +64,18 @@ def step (st : St) (toks : List String) : St × String :=
       | none => (st, s!"OK dv={d.dictViolations}|{body}{sep}END")
       | some e => (st, s!"ERR {e} dv={d.dictViolations}|{body}{sep}END")
     | _, _ => (st, "bad-op")
+  | ["sd", "values", id, root, hex] =>
+    -- as `sd decode`, without the modified masks (used when the Go reader could not read the stream
+    -- it wrote, so that the harness has no masks to expect)
+    match st.schemas.find? (·.1 = id), hexToBytes hex with
+    | some (_, σ), some bytes =>
+      let d := decodeStream σ root bytes
+      let body := "|".intercalate (d.records.map (fun (_, r) => dump σ (.ref root) r))
+      let sep := if body = "" then "" else "|"
+      match d.error with
+      | none => (st, s!"OK dv={d.dictViolations}|{body}{sep}END")
+      | some e => (st, s!"ERR {e} dv={d.dictViolations}|{body}{sep}END")
+    | _, _ => (st, "bad-op")
   | ["sd", "frames", id, root, hex] =>
     match st.schemas.find? (·.1 = id), hexToBytes hex with
     | some (_, σ), some bytes =>
